@@ -4,7 +4,7 @@ P: AnnotatedMetricFunction.__call__ (all arguments are columns of the same frame
    (column key and mapping per parameter), MetricFrame._extract_result; lemma column_name_injectivity over the contract (z3 strings) -
    refuted, replayed natively: known finding C01:sample-param-column-name-collision.
 """
-from ..contracts.metricframe import AnnotatedCall, ApplyFunctions, ApplyToDataframe, ConstructAMF, Create, ExtractResult, GetAnnotatedFunctions, column_name_injectivity
+from ..contracts.metricframe import AnnotatedCall, ApplyFunctions, ApplyToDataframe, ConstructAMF, Create, ExtractResult, GetAnnotatedFunctions, ProcessFeaturesDict, column_name_injectivity
 from ..pyvc import solve, verify
 from ..pyvc.util import model_str
 
@@ -42,7 +42,7 @@ def run_deductive(rep):
              (GetAnnotatedFunctions("callable"), []),
              (GetAnnotatedFunctions("dict"), [("callers_dictionary_emptied", verify.replace_expr("sample_params.get(name, {})", "sample_params.pop(name, {})")),
                                               ("every_metric_gets_all_sample_params", verify.replace_expr("sample_params.get(name, {})", "sample_params"))]),
-             (GetAnnotatedFunctions("dict_no_params"), [])]
+             (GetAnnotatedFunctions("dict_no_params"), []), (ProcessFeaturesDict(), [])]
     for c in (True, False):
         for h in (True, False):
             items.append((ExtractResult(c, h), [("row_and_column_swapped", verify.replace_expr("underlying_result.iloc[0]", "underlying_result.iloc[:, 0]"))] if (c and not h) else []))
